@@ -248,6 +248,10 @@ class OutputAsync(addons.AddonAsync, block.SBlock):
 
     async def _output_coro_wrapper(self, data: Mapping) -> None:
         """Count the active tasks."""
+        if not self.is_initialized():
+            # stop_data is processed also when the simulation has ended
+            # before the block got initialized
+            self.set_output(0)
         self.set_output(self.output + 1)
         try:
             await self._output_coro(data)
